@@ -22,7 +22,7 @@ Part P (output paths): one configuration per output path with a no-op key as the
 Part S (intercept set): random defsrc / deflayermap / process-unmapped-keys lists; Cfg.mapped_keys of the real
   parser is compared by TLC with P_C11.Intercept computed from the text-level description.
 """
-import re, threading, itertools
+import re, threading, itertools, subprocess
 from props.common import *
 from props.c13 import par_validate, tlc_ok
 
@@ -792,6 +792,151 @@ def check_intercept(wd, cases, g, name="c11s"):
     return r, errs, lines, failed
 
 
+# ------------------------------------------------------------------ part R: the intercept set across live reloads
+MC_R = r"""---- MODULE MC_C11R ----
+EXTENDS Naturals, Sequences, FiniteSets, TLC, Json, IOUtils
+P == INSTANCE P_C11
+Known == %(known)s
+PseudoDef == %(pseudo)s
+Rec == ndJsonDeserialize(IOEnv.CASES)
+VARIABLES l, ph
+CheckLine(j) ==
+  LET r == Rec[j]
+      bad == P!ReloadBad(r.qs, Known, PseudoDef, r.start, r.obs)
+  IN IF bad = <<>> THEN TRUE ELSE PrintT(<<"VERR", ToJson([line |-> j, bad |-> bad[1]])>>)
+Init == l = 0 /\ ph = 0
+Next == \/ ph = 0 /\ l = 0 /\ \E j \in DOMAIN Rec : l' = j /\ ph' = 0
+        \/ ph = 0 /\ l > 0 /\ CheckLine(l) /\ ph' = 1 /\ l' = l
+Done == TLCGet("distinct") = 2 * Len(Rec) + 1
+====
+"""
+RL_KEY = "pause"          # the key every valid content maps to lrld
+
+
+def reload_content(rng, names, rcode, x11=False):
+    """one valid file content with a random intercept set and the reload key; returns (text, q)"""
+    pool = [(qn, c) for qn, c in names if c != rcode]
+    seen, defsrc, lmap, exc = {rcode}, [], [], []
+    for qn, c in rng.sample(pool, rng.choice([1, 2, 4, 10, 30])):
+        if c not in seen:
+            seen.add(c)
+            defsrc.append((qn, c))
+    lseen = set()
+    for qn, c in rng.sample(pool, rng.choice([0, 0, 1, 3, 8])):
+        if c not in lseen:
+            lseen.add(c)
+            lmap.append((qn, c))
+    pu = rng.choice(["absent", "absent", "no", "yes", "except"])
+    if pu == "except":
+        eseen = set()
+        for qn, c in rng.sample(pool, rng.choice([1, 3, 10])):
+            if c not in seen and c not in eseen:
+                eseen.add(c)
+                exc.append((qn, c))
+        if not exc:
+            pu = "yes"
+    opts = []
+    if pu == "except":
+        opts.append("process-unmapped-keys (all-except %s)" % " ".join(q for q, _ in exc))
+    elif pu != "absent":
+        opts.append("process-unmapped-keys %s" % pu)
+    if x11:
+        opts.append("linux-x11-repeat-delay-rate 400,50")
+    cfg = "(defcfg %s)\n" % " ".join(opts) if opts else ""
+    cfg += "(defsrc %s %s)\n(deflayer l0 lrld %s)\n" % (RL_KEY, " ".join(q for q, _ in defsrc), " ".join(q for q, _ in defsrc))
+    if lmap:
+        cfg += "(deflayermap (l1) %s)\n" % " ".join("%s %s" % (q, rng.choice(["a", "_", "XX"])) for q, _ in lmap)
+    q = {"defsrc": [rcode] + [c for _, c in defsrc], "lmap": [c for _, c in lmap], "pu": pu in ("yes", "except"),
+         "exc": [c for _, c in exc]}
+    return cfg, q
+
+
+def reload_cases(tier, rng, g):
+    t = g["t"]
+    fromset = {c for c, _ in t["from"]}
+    names = [(quote(e["n"]), e["c"]) for e in t["names"] if quote(e["n"]) and e["c"] in fromset]
+    rcode = {e["n"]: e["c"] for e in t["names"]}[RL_KEY]
+    kinds = ["N", "X", "S", "R", "missing", "O"]
+    cases = []
+    ngroups = 5 if tier == "quick" else 40
+    for gi in range(ngroups):
+        texts, qs = {}, {}
+        for k in ("O", "N", "X"):
+            texts[k], qs[k] = reload_content(rng, names, rcode, x11=(k == "X"))
+        texts["S"] = texts["N"].rstrip()[:-1] + "\n"                                   # unbalanced parenthesis
+        texts["R"] = texts["N"].replace("(deflayer l0 lrld", "(deflayer l0 nosuchkey", 1)   # parses as s-expressions, refused
+        words = [w for ln in (1, 2, 3) for w in itertools.product(kinds, repeat=ln)]
+        if tier == "quick" and gi >= 2:
+            words = [w for w in words if len(w) <= 2] + rng.sample([w for w in words if len(w) == 3], 40)
+        for w in words:
+            script = []
+            for k in w:
+                script += [["w", k], ["d", rcode], ["t", 2], ["u", rcode], ["t", 3]]
+            cases.append({"tag": len(cases), "texts": texts, "start": "O", "script": script, "qs": qs, "word": list(w)})
+    return cases
+
+
+def reload_desc(e):
+    b = e["bad"]
+    return ("C11 R: after step %s of a reload script the intercepted set is not that of the configuration in force (%s; file content "
+            "%s, layout replaced at this step: %s): missing %s extra %s" %
+            (b["i"], b["inforce"], b["file"], b["repl"], sorted(b["missing"])[:10], sorted(b["extra"])[:10]))
+
+
+def check_reload(wd, cases, g, name="c11r"):
+    build_harness()
+    fi, fo = os.path.join(wd, name + ".in.json"), os.path.join(wd, name + ".out.ndjson")
+    nsh = min(6, max(1, len(cases) // 100))
+    procs = []
+    for i in range(nsh):
+        part = cases[i::nsh]
+        json.dump([{k: c[k] for k in ("tag", "texts", "start", "script")} for c in part], open(fi + str(i), "w"))
+        procs.append(subprocess.Popen([HARNESS, "c11-reload", fi + str(i), fo + str(i), wd], stdout=subprocess.PIPE,
+                                      stderr=subprocess.STDOUT, text=True))
+    by_tag = {}
+    for i, p in enumerate(procs):
+        so, _ = p.communicate(timeout=1200)
+        if p.returncode != 0:
+            raise ToolError("c11-reload failed: %s" % (so or "")[-1500:])
+        for line in open(fo + str(i)):
+            d = json.loads(line)
+            by_tag[d["tag"]] = d
+    lines, failed = [], []
+    for c in cases:
+        d = by_tag.get(c["tag"])
+        if d is None or "obs" not in d:
+            failed.append((c, (d or {}).get("err") or (d or {}).get("panic") or "no output"))
+            continue
+        # an observation equal to the previous one (same set, no replacement) gets the same verdict: dropped
+        obs, prev = [], None
+        for o in d["obs"]:
+            if prev is None or o["repl"] or o["mk"] != prev:
+                obs.append(o)
+            prev = o["mk"]
+        lines.append({"case": c, "rec": {"qs": c["qs"], "start": c["start"], "obs": obs},
+                      "reloads": sum(1 for o in d["obs"] if o["repl"])})
+    if len(failed) > len(cases) // 10:
+        raise ToolError("reload cases: %d of %d could not be run, e.g. %s" % (len(failed), len(cases), str(failed[0][1])[:300]))
+    f = os.path.join(wd, name + ".cases.ndjson")
+    with open(f, "w") as fh:
+        for ln in lines:
+            fh.write(json.dumps(ln["rec"]) + "\n")
+    osc_by_name = {e["n"]: e["v"] for e in g["osc"]}
+    pseudo = {osc_by_name[n] for n in ("KEY_RESERVED", "KEY_UNKNOWN", "KEY_MAX") if n in osc_by_name}
+    known = {c for c, _ in g["t"]["from"]} - pseudo
+    mod = "MC_C11R"
+    open(os.path.join(wd, mod + ".tla"), "w").write(MC_R % dict(known=tla_val(known), pseudo=tla_val(pseudo)))
+    open(os.path.join(wd, mod + ".cfg"), "w").write("INIT Init\nNEXT Next\nCHECK_DEADLOCK FALSE\nPOSTCONDITION Done\n")
+    r = run_tlc(wd, mod, workers=6, timeout=900, heap="4g", env_extra={"CASES": os.path.abspath(f)})
+    tlc_ok(r, mod)
+    ve = os.path.join(wd, name + ".verr.ndjson")
+    extract_prints(r["out"], "VERR", ve)
+    errs = [json.loads(x) for x in open(ve) if x.strip()]
+    for e in errs:
+        e["case"] = lines[e["line"] - 1]["case"]
+    return r, errs, lines, failed
+
+
 def replay(r, path, wd):
     g = gather_tables(wd)
     if r["kind"] == "c11tables":
@@ -809,6 +954,24 @@ def replay(r, path, wd):
             print("VIOLATION property=%s replay=%s" % (r["property"], path))
             return 1
         print("accepted by KeyTables")
+        return 0
+    if "reload" in r:
+        c = dict(r["reload"], tag=0)
+        _, errs, lines, failed = check_reload(wd, [c], g, "c11r_replay")
+        if failed:
+            print("the case could not be run: %s" % failed[0][1])
+            return 0
+        for k in sorted(c["texts"]):
+            print("---- content %s\n%s" % (k, c["texts"][k].rstrip()))
+        print("start with O; per step: write the content, tap the lrld key: %s" % c["word"])
+        for o in lines[0]["rec"]["obs"]:
+            print("after step %d (file=%s, layout replaced=%s): %d keys intercepted" % (o["i"], o["file"], o["repl"], len(o["mk"])))
+        for e in errs:
+            print("REJECTED: %s" % reload_desc(e))
+        if errs:
+            print("VIOLATION property=%s replay=%s" % (r["property"], path))
+            return 1
+        print("accepted by P_C11.ReloadBad")
         return 0
     _, errs, lines, failed = check_intercept(wd, [{"tag": 0, "cfg": r["cfg"], "probe": [], "q": r["q"]}], g, "c11s_replay")
     if failed:
@@ -954,6 +1117,36 @@ def run(tier, seed):
     guarded("I", part_I)
     guarded("P", part_P)
     guarded("S", part_S)
+
+    def part_R():
+        cases = reload_cases(tier, random.Random(seed + 31), g)
+        rr, rerrs, rlines, rfailed = check_reload(wd, cases, g)
+        res.states += rr["distinct"] or 0
+        res.transitions += rr["generated"] or 0
+        res.traces_validated += len(rlines)
+        seen_w = {}
+        for e in sorted(rerrs, key=lambda e: len(e["case"]["word"])):
+            c = e["case"]
+            key = tuple(c["word"][-1:])
+            seen_w[key] = seen_w.get(key, 0) + 1
+            if seen_w[key] > 2:
+                continue
+            desc = reload_desc(e)
+            flow.classify(res, pid, desc, desc + " word=%s" % c["word"],
+                          {"property": pid, "kind": "c11intercept", "err": desc,
+                           "reload": {k: c[k] for k in ("texts", "start", "script", "qs", "word")}}, "reload_%d" % len(res.violations))
+        nrel = sum(ln["reloads"] for ln in rlines)
+        if rlines:
+            res.samples.append({"reload_word": rlines[-1]["case"]["word"], "contents": {k: v[:160] for k, v in rlines[-1]["case"]["texts"].items()},
+                                "observations": [{"i": o["i"], "file": o["file"], "repl": o["repl"], "intercepted": len(o["mk"])}
+                                                 for o in rlines[-1]["rec"]["obs"]]})
+        res.extra["intercept_after_reload"] = {"scripts": len(rlines), "successful_reloads_observed": nrel, "differ": len(rerrs),
+                                               "not_run": len(rfailed)}
+        if rlines and nrel == 0:
+            raise ToolError("reload cases: no reload ever replaced the layout (the stepper does not reach do_live_reload)")
+        log("[c11] intercept set across reloads: %d scripts, %d successful reloads observed, %d differ, %d not run" %
+            (len(rlines), nrel, len(rerrs), len(rfailed)))
+    guarded("R", part_R)
     lines, failed = box["lines"], box["failed"]
     return flow.finish(
         res, "model_checking",
